@@ -26,6 +26,64 @@ class Variant:
         self.count = count
 
 
+class SV:
+    """Statement-level variant: inside function `qual` ('Class.method' or
+    'function') of `relpath`, the consecutive statements whose unparsed form
+    equals `old` (comments / layout ignored) are replaced by `new` ('' to
+    delete).  The variant text is the unparsed edited module."""
+    def __init__(self, name, relpath, qual, old, new, expect):
+        self.name = name
+        self.relpath = relpath
+        self.qual = qual
+        self.old = old
+        self.new = new
+        self.expect = expect
+
+    def build(self, text):
+        """-> new module text or None when the anchor is missing."""
+        import ast
+        import textwrap
+        tree = ast.parse(text)
+        target = None
+        parts = self.qual.split(".")
+        scope = tree.body
+        for part in parts:
+            found = None
+            for stmt in scope:
+                if isinstance(stmt, (ast.ClassDef, ast.FunctionDef)) and \
+                        stmt.name == part:
+                    found = stmt
+            if found is None:
+                return None
+            target = found
+            scope = found.body
+        old = [ast.unparse(s) for s in
+               ast.parse(textwrap.dedent(self.old)).body]
+        new = ast.parse(textwrap.dedent(self.new)).body if self.new.strip() \
+            else []
+        hits = []
+
+        def visit(stmts):
+            for k in range(len(stmts) - len(old) + 1):
+                if [ast.unparse(x) for x in stmts[k:k + len(old)]] == old:
+                    hits.append((stmts, k))
+            for stmt in stmts:
+                for field in ("body", "orelse", "finalbody"):
+                    sub = getattr(stmt, field, None)
+                    if isinstance(sub, list) and sub and \
+                            isinstance(sub[0], ast.stmt):
+                        visit(sub)
+                for hnd in getattr(stmt, "handlers", []):
+                    visit(hnd.body)
+        visit(target.body)
+        if len(hits) != 1:
+            return None
+        stmts, k = hits[0]
+        stmts[k:k + len(old)] = new or [ast.Pass()]
+        ast.fix_missing_locations(tree)
+        return ast.unparse(tree)
+
+
 def apply_unified_diff(patch_text):
     """-> {relpath: new text} by applying a git diff to the current tree.
     Returns None if some hunk does not apply."""
@@ -116,6 +174,15 @@ def run_for(pid, verbose=True):
             continue
         with open(full, encoding="utf-8") as fin:
             text = fin.read()
+        if isinstance(var, SV):
+            newtext = var.build(text)
+            if newtext is None:
+                results.append((var.name, "skipped: anchor statements not "
+                                "found exactly once"))
+                continue
+            new, err = analyse(pid, {var.relpath: newtext})
+            results.append(_judge(var.name, var.expect, new, err, failures))
+            continue
         if text.count(var.old) != var.count:
             results.append((var.name, f"skipped: anchor text occurs "
                             f"{text.count(var.old)}x (expected {var.count})"))
